@@ -268,9 +268,9 @@ def _pn_fields(facts, ctx):
     return fld(r[2][0]), fld(r[2][1]), body, r
 
 
-@rule('CNT-READ', {
+@rule('CNT-READ', floor=2, **read_attribution({
     'C11': 'GCounter reads the sum over all actors; PNCounter reads increments minus decrements',
-}, floor=2)
+}, module=None))
 def cnt_read(ctx):
     """GCounter::read sums the counter of every dot of inner; PNCounter::read = read(p) - read(n)."""
     facts = ctx.facts
